@@ -9,7 +9,7 @@ BIN=/verif/sim/target/release/nsim
 OUT=${3:-/tmp/nsim-determinism}
 rm -rf $OUT; mkdir -p $OUT
 rc=0
-for P in ${PROFILES:-alias dict stream flow typed freeze sweep}; do
+for P in ${PROFILES:-alias dict stream flow typed freeze io sweep}; do
   R=$RUNS; [ $P = sweep ] && R=$((RUNS/10))
   mkdir -p $OUT/$P/a $OUT/$P/b $OUT/$P/c
   $BIN batch --profile $P --seed $SEED --runs $R --threads 1  --show 0 --logdir $OUT/$P/a >/dev/null 2>&1
